@@ -7,7 +7,7 @@ import math
 
 import numpy as np
 
-from .. import corr, kern, oracle
+from .. import corr, kern, oracle, helpers
 from . import common
 from .C01 import band_info, subnormal_band_rotors
 
@@ -107,6 +107,47 @@ def gap_Y(run, cfgs, rotors, n_samples, big_m=False):
     run.notes["worst_addition_theorem_rel_over_(ell+1)eps"] = round(worst_sum, 3)
 
 
+def argument_types(run):
+    """the rotor argument is array_like: float32 / float16 / integer ndarrays denote the same quaternions as their float64
+    copies and must give the same values (the float64 copy is what the oracle sweeps verify).  Plain Python lists are rejected
+    by the unchanged tree (AttributeError: no .shape) — a rejection, not a wrong value, so they are not part of this stratum."""
+    import spherical
+    import quaternionic
+    rng = run.rng
+    w = spherical.Wigner(12, mp_max=3)
+    wD = spherical.Wigner(6)
+    base = [np.array(helpers.random_rotor(rng)) for _ in range(3)] + [np.array([0.6, 0.0, 0.0, 0.8]), np.array([1.0, 2.0, -3.0, 4.0]), np.array([3.0, 1.0, -2.0, 5.0])]
+    for R in base:
+        variants = {"float32": R.astype(np.float32), "float16": R.astype(np.float16)}
+        if np.all(R == np.round(R)):
+            variants["int64"] = R.astype(np.int64)
+        for vname, Rv in variants.items():
+            R64 = np.asarray(Rv, dtype=np.float64)          # exactly the same four numbers, as doubles
+            for s in (-2, 0, 3):
+                run.gap_case("argument-types", (vname, tuple(R64), s), vname)
+                inp = {"R": [float(x) for x in R64], "R_given_as": vname, "s": s, "ell_max": 12, "mp_max": 3}
+                try:
+                    a = w.sYlm(s, Rv).copy()
+                    b = w.sYlm(s, quaternionic.array(R64)).copy()
+                except Exception as e:   # noqa: BLE001
+                    run.violation("sYlm-raised", "Wigner.sYlm", inp, "values", repr(e)[:200])
+                    continue
+                if a.shape != b.shape or not (float(np.max(np.abs(a - b))) <= 64 * 13 * 2.3e-16):
+                    k = int(np.argmax(np.abs(a - b)))
+                    ell_k = int(np.floor(np.sqrt(k)))
+                    run.violation("sYlm-differs-from-definition", "Wigner.sYlm", {**inp, "flat_index": k, "ell": ell_k},
+                                  f"the value for the same quaternion given as float64: {complex(b[k])}", str(complex(a[k])),
+                                  detail={"max_abs_diff": float(np.max(np.abs(a - b))), "note": "the float64 call is within the bound of the mpmath oracle (gap_Y)"})
+            try:
+                a = wD.D(Rv).copy()
+                b = wD.D(quaternionic.array(R64)).copy()
+                if a.shape != b.shape or not (float(np.max(np.abs(a - b))) <= 64 * 7 * 2.3e-16):
+                    run.violation("sYlm-differs-from-definition", "Wigner.D", {"R": [float(x) for x in R64], "R_given_as": vname, "ell_max": 6},
+                                  "the value for the same quaternion given as float64", f"max abs diff {float(np.max(np.abs(a - b)))}")
+            except Exception as e:   # noqa: BLE001
+                run.violation("sYlm-raised", "Wigner.D", {"R_given_as": vname}, "values", repr(e)[:200])
+
+
 def check(run):
     quick = run.tier == "quick"
     run.regenerate()
@@ -119,6 +160,7 @@ def check(run):
     run.attempt("corr:corr_Y", kern.corr_Y, run, cfg, rotors if not quick else rotors[:18] + rotors[-4:], preps, poison=float("nan"))
     pole_focus = [r for r in rotors if ("pole" in r[0] or "identity" in r[0] or "pi-about" in r[0])]
     gen = [r for r in rotors if r[0] in ("generic", "rational", "beta-pi/2")]
+    run.attempt("gap:argument_types", argument_types, run)
     gap_Y(run, [(8, 8, list(range(-8, 9)))], rotors, 3)
     gap_Y(run, [(48, 6, [-6, -3, -2, 0, 1, 5])], rotors[::2], 2)
     gap_Y(run, [(12, 3, [-3, 2])], subnormal_band_rotors(), 2)
